@@ -1085,6 +1085,11 @@ func Serve(mainFn func(), reset func()) {
 	}
 	nRuns := 0
 	in := bufio.NewReaderSize(os.Stdin, 1<<20)
+	// the simulated process's standard input is empty (what a plugin or the golden tests give
+	// the real binary): code that reads os.Stdin must not eat the worker's job stream
+	if devnull, err := os.Open(os.DevNull); err == nil {
+		os.Stdin = devnull
+	}
 	realOut, realErr := os.Stdout, os.Stderr
 	outPath, errPath := os.Getenv("SIMRT_OUT"), os.Getenv("SIMRT_ERR")
 	if outPath == "" || errPath == "" {
